@@ -173,6 +173,9 @@ func (fs *FS) Rename(oldname, newname string) error {
 		}
 		return &hackpadfs.LinkError{Op: "rename", Old: oldname, New: newname, Err: err}
 	}
+	if !hackpadfs.ValidPath(oldname) || !hackpadfs.ValidPath(newname) {
+		return linkErr(hackpadfs.ErrInvalid)
+	}
 	oldMount, oldPoint, oldSubPath := fs.mountPoint(oldname)
 	newMount, newPoint, newSubPath := fs.mountPoint(newname)
 	if oldname != newname && oldPoint == newPoint {
